@@ -58,6 +58,8 @@ CLASSES: List[Tuple[int, str, List[str], str, dict]] = [
     (43, "c18w", ["RegPoint"], "R", {}),
     # registration HISTORIES (set up in world()): 70 is registered only after a first, refused to_json; 72 is registered, used,
     # then registered again with another representation.  Afterwards both are ordinary registered types of every generated value.
+    (74, "c18w", ["SelfDescribing"], "R", {}),    # registered external type that has its OWN methods named to_json / from_json
+    (76, "c18w", ["ClearedReg"], "R", {}),        # registered, used, registry singleton cleared, registered again on the new instance
     (70, "c18w", ["LateReg"], "R", {}),
     (72, "c18w", ["ReReg"], "R", {}),
     (45, "c18w", ["RegBase"], "R", {}),                             # harness pair in a subclass relationship,
@@ -162,9 +164,35 @@ def world() -> Dict[str, Any]:
     reg = JSONSerializableTypeRegistry()
 
     def register(c, enc, dec):
-        reg.register(c, lambda o: {TAG: get_full_class_name(type(o)), "value": enc(o)}, lambda data, **kw: dec(data["value"]))
+        JSONSerializableTypeRegistry().register(c, lambda o: {TAG: get_full_class_name(type(o)), "value": enc(o)}, lambda data, **kw: dec(data["value"]))
 
+    # --- history 0: register on the first registry instance, use, clear the singleton, register EVERYTHING again on the new
+    # instance (krrood's own uuid.UUID registration included).  Every later case runs against the new instance.
+    history = {}
+    from krrood.adapters.json_serializer import serialize_uuid, deserialize_uuid
+    LR, RR, SD, CR = cls[70], cls[72], cls[74], cls[76]
+    for K in (LR, RR, SD, CR):
+        K.__init__ = lambda self, x=0, y=0: (setattr(self, "x", x), setattr(self, "y", y)) and None
+        K.__eq__ = lambda self, o: type(o) is type(self) and vars(self) == vars(o)
+        K.__hash__ = None
+    register(CR, lambda o: [o.x, o.y], lambda v: CR(v[0], v[1]))
+    try:
+        r0 = from_json(json.loads(json.dumps(to_json([CR(1, 2), uuid.UUID(int=7)]))))
+        history["clear:round_trip_before"] = "ok" if r0 == [CR(1, 2), uuid.UUID(int=7)] else "wrong value"
+    except Exception as e:  # noqa
+        history["clear:round_trip_before"] = type(e).__name__
+    first_registry = reg
+    JSONSerializableTypeRegistry.clear_instance()
+    reg = JSONSerializableTypeRegistry()
+    history["clear:new_instance"] = reg is not first_registry
+    try:
+        to_json(CR(1, 2))
+        history["clear:use_after_clear"] = "returned"
+    except Exception as e:  # noqa
+        history["clear:use_after_clear"] = type(e).__name__
+    reg.register(uuid.UUID, serialize_uuid, deserialize_uuid)
     register(RP, lambda o: [o.x, o.y], lambda v: RP(v[0], v[1]))
+    register(CR, lambda o: [o.x, o.y], lambda v: CR(v[0], v[1]))
     RB, RD = cls[45], cls[46]
     RB.__init__ = lambda self, x=0: setattr(self, "x", x)
     RB.__eq__ = lambda self, o: type(o) is type(self) and vars(self) == vars(o)
@@ -172,13 +200,11 @@ def world() -> Dict[str, Any]:
     RD.__init__ = lambda self, x=0, y=0: (setattr(self, "x", x), setattr(self, "y", y)) and None
     register(RB, lambda o: [o.x], lambda v: RB(v[0]))                      # base first ...
     register(RD, lambda o: [o.x, o.y], lambda v: RD(v[0], v[1]))           # ... then the derived type
+    # a registered external type with its own methods called to_json / from_json (unrelated plain-data export, no type tag)
+    SD.to_json = lambda self: {"x": self.x, "y": self.y}
+    SD.from_json = classmethod(lambda k, data: k(data["x"], data["y"]))
+    register(SD, lambda o: [o.x, o.y], lambda v: SD(v[0], v[1]))
     # --- history 1: use before registration (refused), then register, then use
-    history = {}
-    LR, RR = cls[70], cls[72]
-    for K in (LR, RR):
-        K.__init__ = lambda self, x=0, y=0: (setattr(self, "x", x), setattr(self, "y", y)) and None
-        K.__eq__ = lambda self, o: type(o) is type(self) and vars(self) == vars(o)
-        K.__hash__ = None
     try:
         to_json([LR(1, 2)])
         history["late:first_attempt"] = "returned"
@@ -186,7 +212,7 @@ def world() -> Dict[str, Any]:
         history["late:first_attempt"] = type(e).__name__
     register(LR, lambda o: [o.x, o.y], lambda v: LR(v[0], v[1]))
     # --- history 2: register, use, register again with another representation
-    reg.register(RR, lambda o: {TAG: get_full_class_name(type(o)), "old": [o.y, o.x]}, lambda data, **kw: RR(data["old"][1], data["old"][0]))
+    JSONSerializableTypeRegistry().register(RR, lambda o: {TAG: get_full_class_name(type(o)), "old": [o.y, o.x]}, lambda data, **kw: RR(data["old"][1], data["old"][0]))
     try:
         r0 = from_json(json.loads(json.dumps(to_json([RR(3, 4)]))))
         history["rereg:first_round_trip"] = "ok" if r0 == [RR(3, 4)] else "wrong value"
@@ -303,7 +329,7 @@ def build(d):
         return frozenset(own)
     if cid == 44:
         return datetime.date(own[0], own[1], own[2])
-    if cid in (70, 72):
+    if cid in (70, 72, 74, 76):
         return c(own[0], own[1])
     if cid == 45:
         return c(own[0])
@@ -366,7 +392,7 @@ def enc(r):
         return [6, cid, enc_jv(sorted(r)), []]
     if cid == 44:
         return [6, cid, enc_jv([r.year, r.month, r.day]), []]
-    if cid in (70, 72):
+    if cid in (70, 72, 74, 76):
         return [6, cid, enc_jv([r.x, r.y]), []]
     if cid == 45:
         return [6, cid, enc_jv([r.x]), []]
@@ -486,7 +512,7 @@ def gen_reg(rng) -> list:
         return ["o", 53, sorted({rng.randint(-9, 9) for _ in range(rng.randint(0, 4))}), []]
     if cid == 44:
         return ["o", 44, rng.choice(DAYS), []]
-    if cid in (70, 72):
+    if cid in (70, 72, 74, 76):
         return ["o", cid, [rng.randint(-9, 9), rng.randint(-9, 9)], []]
     if cid == 45:
         return ["o", 45, [rng.randint(-9, 9)], []]
@@ -579,7 +605,8 @@ def fixed_cases() -> List[list]:
     out += [["o", 47, [1, -2], []], ["o", 47, [0, 0], []], ["o", 48, [], []], ["o", 48, [0, 255, 10], []], ["o", 49, [0, 5, 1], []],
             ["o", 49, [3, -7, -2], []], ["o", 53, [], []], ["o", 53, [-1, 2, 7], []],
             ["l", [["o", 47, [3, 4], []], ["l", [["o", 48, [1], []]]], ["o", 13, "k", [["o", 49, [1, 9, 2], []], ["o", 53, [5], []]]]]]]
-    out += [["o", 70, [1, 2], []], ["o", 72, [3, 4], []], ["l", [["o", 70, [5, 6], []], ["o", 13, 0, [["o", 72, [7, 8], []], ["o", 70, [0, 0], []]]]]]]
+    out += [["o", 74, [1, 2], []], ["o", 76, [3, 4], []], ["l", [["o", 74, [0, 1], []], ["o", 10, 0, [["o", 74, [2, 3], []], ["o", 76, [4, 5], []]]]]],
+            ["o", 70, [1, 2], []], ["o", 72, [3, 4], []], ["l", [["o", 70, [5, 6], []], ["o", 13, 0, [["o", 72, [7, 8], []], ["o", 70, [0, 0], []]]]]]]
     out += [["o", 44, d, []] for d in DAYS] + [["o", 45, [3], []], ["o", 46, [3, 4], []]]
     out.append(["l", [["o", 44, DAYS[0], []], ["o", 41, DATES[1], []], ["o", 45, [1], []], ["o", 46, [1, 2], []], ["o", 10, 0, [["o", 41, DATES[0], []], ["o", 46, [5, 6], []]]]]])
     # a chain through every class, lists in between
@@ -677,7 +704,7 @@ def run(tier: str, seed: int, replay=None) -> int:
                   "path (a module 'm.Outer' next to class Outer of module m would be imported in place of the class)",
                   "tuples, sets, dicts and NaN are outside the statement's value grammar and are not generated"]
     rep.rule = ("fixed edge list (every leaf kind incl. 2**70, +-inf, -0.0, lone surrogates, NUL, empty and 4-deep lists, every class of 3 subclass chains "
-                "of depth 1-4 in both styles of extending super().to_json() (copy / in-place), 13 registered third-party types (4 living in module builtins; one registered only after a first refused to_json, one registered twice with different representations -- registration histories run once per process in world()) incl. two base/derived "
+                "of depth 1-4 in both styles of extending super().to_json() (copy / in-place), 15 registered third-party types (4 living in module builtins; one with its own to_json/from_json methods; histories run once per process in world(): registry singleton cleared and everything registered again on the new instance, a type registered only after a first refused to_json, a type registered twice with different representations) incl. two base/derived "
                 "pairs registered base-first, 2-4 different instances of one class as siblings / kids / parent-child in every 5th random value) + seeded grammar-directed random values (list depth <= 4, object depth <= 4, ~4% with a "
                 "function-local serialiser class = known-finding class K_local; classes nested in classes are ordinary members of the class pool); thorough adds all values of <= 4 nodes over a 7-leaf alphabet; "
                 "non-trivial = contains at least one list or object; distinct = distinct value")
@@ -755,6 +782,9 @@ def run(tier: str, seed: int, replay=None) -> int:
     rep.extra["registration_histories"] = world().get("history", {})
     if world().get("history", {}).get("late:first_attempt") != "ClassNotSerializableError":
         rep.note(f"history: to_json of a not-yet-registered type gave {world()['history'].get('late:first_attempt')} (expected ClassNotSerializableError)")
+    hist = world().get("history", {})
+    if hist.get("clear:round_trip_before") != "ok" or hist.get("clear:new_instance") is not True or hist.get("clear:use_after_clear") != "ClassNotSerializableError":
+        rep.note(f"history: registry clear_instance steps gave {hist}")
     if world().get("history", {}).get("rereg:first_round_trip") != "ok":
         rep.note(f"history: round trip under the first registration of ReReg gave {world()['history'].get('rereg:first_round_trip')}")
     rep.extra["known_finding_instances"] = kf_instances
